@@ -356,6 +356,7 @@ def run(prop, tier):
                          for e in r['events'])
         ck.case(vlib.digest(shape), nontrivial)
         outcomes[r.get('outcome', '?')] = outcomes.get(r.get('outcome', '?'), 0) + 1
+        ck.cov['key_sets_rechecked_by_reference_arithmetic'] = ck.cov.get('key_sets_rechecked_by_reference_arithmetic', 0) + (r.get('refkeys') or 0)
         if r.get('notes'):
             ck.notes.append('%s: %s' % (r['id'], r['notes'][0]))
     ck.cov['real_outcomes'] = dict(sorted(outcomes.items(), key=lambda kv: -kv[1])[:12])
@@ -378,6 +379,8 @@ def run(prop, tier):
         'Byzantine behaviour limited to the message grammar of DKGNet.tla; exhaustive only within the stated budgets',
         'polynomial names abstract the field arithmetic; concretisation uses real dealer objects as sources of well-formed values',
         'the disqualified set of a participant is read from its Disqualify callbacks',
+        'key consistency is judged twice: through the threshold-signature API on every successful run, and with the reference G2 arithmetic '
+        '(public shares on one degree-t polynomial with the group key at 0, private share x generator) on one successful run in four',
     ]
     return ck.finish(rule='one case = one executed network behaviour (delivery order + Byzantine scripts); distinct by the '
                           'sequence of actions and scripts; non-trivial when a Byzantine participant sent at least one message',
